@@ -703,7 +703,14 @@ SoPlexBase<R>::Settings::RationalParam SoPlexBase<R>::Settings::rationalParam;
 ///@todo improve performance by implementing a separate copy constructor
 template <class R>
 SoPlexBase<R>::SoPlexBase(const SoPlexBase<R>& rhs)
+   : _scalerUniequi(false)
+   , _scalerBiequi(true)
+   , _scalerGeo1(false, 1)
+   , _scalerGeo8(false, 8)
+   , _scalerGeoequi(true)
+   , _scalerLeastsq()
 {
+   // construct the scalers as in the default constructor: the assignment operator cannot change their constant settings
    // allocate memory as in default constructor
    _statistics = nullptr;
    spx_alloc(_statistics);
